@@ -19,8 +19,8 @@ import (
 	"sync"
 
 	"capnproto.org/go/capnp/v3"
-	"capnproto.org/go/capnp/v3/zverif/common"
 	rpccp "capnproto.org/go/capnp/v3/std/capnp/rpc"
+	"capnproto.org/go/capnp/v3/zverif/common"
 )
 
 const probeBase = 0x40000000
